@@ -117,7 +117,7 @@ def run(chk):
                 try:
                     utils.ekos_product(ini, fin, path=path)
                 except Exception as e:
-                    chk.fail(f"{tag}.no_exception", f"{type(e).__name__}: {e}", fn=fn, replay=rp)
+                    chk.raised(f"{tag}.no_exception", e, fn=fn, replay=rp)
                     continue
                 finally:
                     utils.EKO = saved
